@@ -470,6 +470,33 @@ def check_difference_vector(rep: Report, ix):
     rep.floor("difference_vector definitions calling _difference_vector", n_sites, 3)
 
 
+def check_wrap_formula(rep: Report, ix):
+    """the periodic wrap of one Cartesian difference component: d -> ((d + L/2) mod L) - L/2,
+    i.e. a representative in [-L/2, L/2) that differs from d by a whole number of periods"""
+    f = ix.func(BASE, "GridBase._difference_vector")
+    rep.saw("functions", f.ref)
+    it = Interp(ix)
+    it.np["atleast_1d"] = lambda x: x
+    p1 = PointVec([sp.Symbol(f"a{k}", real=True) for k in range(3)])
+    p2 = PointVec([sp.Symbol(f"b{k}", real=True) for k in range(3)])
+    lo = [sp.Symbol(f"lo{k}", real=True) for k in range(3)]
+    L = [sp.Symbol(f"L{k}", positive=True) for k in range(3)]
+    g = Model("grid", {"dim": 3, "transform": lambda p, source=None, target=None: p, "axes_bounds": tuple((lo[k], lo[k] + L[k]) for k in range(3))}, cls=ix.cls(BASE, "GridBase"))
+    periodic = [True, False, True]
+    try:
+        diff = it.call(it.getattr(g, "_difference_vector"), (p1, p2), {"coords": "cartesian", "periodic": periodic, "axes_bounds": None})
+    except (Unsupported, RaisedInCode) as e:
+        raise AnalysisError(f"{f.ref}: {e}") from e
+    items = list(diff.items) if isinstance(diff, Vec) else list(diff)
+    for k in range(3):
+        d = sp.Symbol(f"b{k}", real=True) - sp.Symbol(f"a{k}", real=True)
+        want = sp.Mod(d + L[k] / 2, L[k]) - L[k] / 2 if periodic[k] else d
+        ok = sp.simplify(sp.sympify(items[k]) - want) == 0
+        rep.oblige(f"difference component {k}: {'wrapped into [-L/2, L/2)' if periodic[k] else 'plain difference'}", ok, str(items[k]))
+        if not ok:
+            rep.violation("C12.difference-wrap", f"{f.ref}::component-wrap", f"Cartesian difference component {k} (periodic={periodic[k]}) is `{items[k]}`; required `{want}` (never more than half a period, antisymmetric up to the half-open end, invariant under period shifts)")
+
+
 def classify_index_space(v: ast.expr) -> str:
     txt = ast.unparse(v)
     if txt in ("self.periodic", "self.axes_bounds", "self._periodic", "self._axes_bounds"):
@@ -531,7 +558,7 @@ def check(tier: str) -> Report:
     ix = get_index()
     run_sections(
         rep,
-        [*coordinate_class_sections(), check_cell_volumes, check_transform, check_normalize, check_integrate, check_difference_vector, check_discretize, check_ball_volumes],
+        [*coordinate_class_sections(), check_cell_volumes, check_transform, check_normalize, check_integrate, check_difference_vector, check_wrap_formula, check_discretize, check_ball_volumes],
         ix,
     )
     rep.assumptions += [
